@@ -56,6 +56,7 @@ pub fn suites() -> Vec<(&'static str, Suite)> {
         ("cs_px", px::run_cs_px as Suite),
         ("mask_ops", px::run_mask_ops as Suite),
         ("thin_cov", px::run_thin_cov as Suite),
+        ("cs_span", px::run_cs_span as Suite),
         ("nearest_map", c16::run_nearest_map as Suite),
         ("stroker_hist", c20::run_stroker_hist as Suite),
         ("draw_hist", c20::run_draw_hist as Suite),
